@@ -121,7 +121,9 @@ def check_tree(name, tree, proj_meta):
     files = dict(SRC)
     files.update({"pages/" + k: v for k, v in tree.items()})
     files["media/logo.png"] = "logo"
-    with site.site(files, "src_dir: ./src\noutput_dir: ./doc\npage_dir: ./pages\nmedia_dir: ./media\ngraph: false\nsearch: false\n" + proj_meta) as (pd, status):
+    # (search on for the trees with several depths: every page is then rendered twice, once for the index and once for the file)
+    search = "true" if name in ("three levels", "aliases in raw html", "basic") else "false"
+    with site.site(files, f"src_dir: ./src\noutput_dir: ./doc\npage_dir: ./pages\nmedia_dir: ./media\ngraph: false\nsearch: {search}\n" + proj_meta) as (pd, status):
         if not status.startswith("ok"):
             return [f"the run failed: {status}"]
         root = os.path.join(pd, "doc", "page")
